@@ -42,6 +42,11 @@ def vOnOrbits (s : Sym) : Bool :=
   (List.range s.dim).all fun i => s.chambers.all fun d =>
     s.vAt i (s.opAt i d) == s.vAt i d && s.vAt i (s.opAt (i + 1) d) == s.vAt i d
 
+/-- operations whose indices differ by more than one commute (the D-symbol axiom m_ij = 2) -/
+def farCommute (s : Sym) : Bool :=
+  s.indices.all fun i => s.indices.all fun j =>
+    !(i + 1 < j) || s.chambers.all fun d => s.opAt j (s.opAt i d) == s.opAt i (s.opAt j d)
+
 /-- chambers reachable from chamber 1, as a marking (naive closure, `size` rounds) -/
 def reachRound (s : Sym) (mark : Array Bool) : Array Bool :=
   s.chambers.foldl (fun (m : Array Bool) d =>
@@ -131,7 +136,8 @@ def renumber (a : Sym) (p : Array Nat) : Sym :=
 /-! ### clauses -/
 
 /-- the input is inside the property's domain: a connected, complete D-symbol -/
-def inDomain (a : Sym) : Bool := a.wellFormed && a.vOnOrbits && a.connected
+def inDomain (a : Sym) : Bool :=
+  decide (a.dim ≥ 1) && a.wellFormed && a.farCommute && a.vOnOrbits && a.connected
 
 /-- "the canonical form of a connected D-symbol is isomorphic to the input" -/
 def canonIsoClause (a c : Sym) : Bool := c.wellFormed && isomorphic a c
